@@ -53,13 +53,36 @@ func InspectSymbolContent(name string) string {
 	firstLetter := true
 	str := name
 
+	// `_` begins an identifier only when a lower or upper case letter follows,
+	// `:__` and `:_1` are not symbols
+	if len(name) > 1 && name[0] == '_' {
+		next, _ := utf8.DecodeRuneInString(name[1:])
+		if !unicode.IsLower(next) && !unicode.IsUpper(next) {
+			quotes = true
+		}
+	}
+
 	for {
 		if len(str) == 0 {
 			break
 		}
 		char, bytes := utf8.DecodeRuneInString(str)
+		if char == utf8.RuneError && bytes == 1 {
+			// a byte that is not part of a valid UTF-8 sequence stays a single byte
+			fmt.Fprintf(&result, `\x%02x`, str[0])
+			quotes = true
+			firstLetter = false
+			str = str[bytes:]
+			continue
+		}
 		str = str[bytes:]
 		switch char {
+		case '$':
+			result.WriteString(`\$`)
+			quotes = true
+		case '#':
+			result.WriteString(`\#`)
+			quotes = true
 		case '\\':
 			result.WriteString(`\\`)
 			quotes = true
@@ -108,7 +131,7 @@ func InspectSymbolContent(name string) string {
 		firstLetter = false
 	}
 
-	if quotes {
+	if quotes || len(name) == 0 {
 		return fmt.Sprintf(`"%s"`, result.String())
 	}
 	return result.String()
